@@ -103,7 +103,7 @@ unfrag_bulk!(c18_unfragmented_bulk_empty_message, 32, 0, 2, 0, 0);
 unfrag_bulk!(c18_unfragmented_bulk_empty_first_buffer, 0, 32, 3, 0, 31);
 // @verif tier=thorough unwind=5
 unfrag_bulk!(c18_unfragmented_bulk_empty_last_buffer, 96, 33, 3, 32, 33);
-// @verif tier=thorough unwind=5
+// @verif tier=quick unwind=5
 unfrag_bulk!(c18_unfragmented_bulk_fills_term_exactly, 160, 64, 2, 32, 32);
 // @verif tier=thorough unwind=5
 unfrag_bulk!(c18_unfragmented_bulk_trips_term_end, 192, 64, 2, 63, 63);
@@ -173,3 +173,77 @@ frag_bulk!(c18_fragmented_bulk_tiny_buffers, 0, 33, 3, 1, 2);
 frag_bulk!(c18_fragmented_bulk_empty_middle_buffer, 0, 65, 3, 33, 33);
 // @verif tier=thorough unwind=6
 frag_bulk!(c18_fragmented_bulk_trips_term_end, 160, 65, 3, 5, 64);
+
+// ---- Publication::offer_bulk vs Publication::offer_opt on twin logs (regime R1, see publog.rs) ----------------------
+use super::publog::{PubLog, TL};
+
+fn code(r: Result<u64, AeronError>) -> i64 {
+    match r {
+        Ok(p) => p as i64,
+        Err(e) => {
+            let c = match &e {
+                AeronError::AdminAction => -1,
+                AeronError::IllegalArgument(_) => -3,
+                AeronError::IllegalState(_) => -4,
+                _ => -2,
+            };
+            std::mem::forget(e);
+            c
+        }
+    }
+}
+
+/// every byte of the active term and the raw tails / term count agree between the twin logs (concrete indices)
+fn logs_agree(a: &mut PubLog, b: &mut PubLog, part: usize) -> bool {
+    let mut ok = a.raw_tail_of(0) == b.raw_tail_of(0) && a.raw_tail_of(1) == b.raw_tail_of(1) && a.raw_tail_of(2) == b.raw_tail_of(2) && a.active_count() == b.active_count();
+    let mut i = 0;
+    while i < TL {
+        ok &= a.term_byte(part, i) == b.term_byte(part, i);
+        i += 1;
+    }
+    ok
+}
+
+macro_rules! offer_bulk_twin {
+    ($name:ident, $count:expr, $tail:expr, $len:expr, $s1:expr, $s2:expr) => {
+        #[kani::proof]
+        fn $name() {
+            let (mut la, mut lb) = (PubLog::new($count, $tail), PubLog::new($count, $tail));
+            lb.session = la.session;
+            lb.stream = la.stream;
+            let (session, stream) = (la.session, la.stream);
+            lb.meta().put::<i32>(crate::concurrent::logbuffer::log_buffer_descriptor::LOG_DEFAULT_FRAME_HEADER_OFFSET + 12, session);
+            lb.meta().put::<i32>(crate::concurrent::logbuffer::log_buffer_descriptor::LOG_DEFAULT_FRAME_HEADER_OFFSET + 16, stream);
+            let limit: i64 = kani::any();
+            la.set_limit(limit);
+            lb.set_limit(limit);
+            la.set_connected(1);
+            lb.set_connected(1);
+            let pa = la.publication();
+            let mut pb = lb.publication();
+            let mut src: [u8; 96] = kani::any();
+            let len: i32 = $len;
+            let ra = code(pa.offer_opt(AtomicBuffer::new(src.as_mut_ptr(), 96), 0, len, default_reserved_value_supplier));
+            let bufs = views(&mut src, len, 3, $s1, $s2);
+            let rb = code(pb.offer_bulk(bufs, default_reserved_value_supplier));
+            assert!(ra == rb, "C18: offer_bulk returns the same position / refusal as offering the concatenation");
+            let part = la.partition();
+            assert!(logs_agree(&mut la, &mut lb, part), "C18: offer_bulk leaves the same frames, payload bytes, flags, tails and term count as offering the concatenation");
+            kani::cover!(ra > 0, "accepted path");
+            kani::cover!(true, "[must] instance reaches the end");
+            std::mem::forget(pa);
+            std::mem::forget(pb);
+        }
+    };
+}
+// term 512 B => max message length 64, MTU payload 32
+// @verif tier=quick unwind=5 unwindset=logs_agree:514 fs=6000 timeout=1500
+offer_bulk_twin!(c18_offer_bulk_max_message_length, 0, 64, 64, 10, 40);
+// @verif tier=quick unwind=5 unwindset=logs_agree:514 fs=6000 timeout=1500
+offer_bulk_twin!(c18_offer_bulk_unfragmented, 1, 0, 17, 0, 9);
+// @verif tier=thorough unwind=5 unwindset=logs_agree:514 fs=6000 timeout=1500
+offer_bulk_twin!(c18_offer_bulk_over_max_message_length, 0, 0, 65, 32, 64);
+// @verif tier=thorough unwind=5 unwindset=logs_agree:514 fs=6000 timeout=1500
+offer_bulk_twin!(c18_offer_bulk_max_payload_boundary, 2, 96, 32, 1, 31);
+// @verif tier=thorough unwind=5 unwindset=logs_agree:514 fs=6000 timeout=1500
+offer_bulk_twin!(c18_offer_bulk_trips_term_end, 0, 448, 40, 13, 13);
